@@ -21,6 +21,19 @@ Theorem C18_registry : forall sk, cfg_ok sk = true -> forall ops : list rop,
 Proof. exact cfg_ok_sound. Qed.
 Print Assumptions C18_registry.
 
+(* ... and for ANY configured core fields, dtypes and default values (a user may change
+   config.livepoints.default_float_dtype, it_default, ...): every add / reset / read history changes
+   the EXTRA fields only - the core part of what the converters see is the configured one, always *)
+Theorem C18_registry_any_config : forall sk, cfg_struct_ok sk = true -> forall ops : list rop,
+  let r := run sk ops reg0 in
+  let e := spec_run sk ops [] in
+  vis_names sk r = k_core_names sk ++ map fst e
+  /\ vis_defs sk r = k_core_defs sk ++ map snd e
+  /\ vis_kinds sk r = k_core_kinds sk ++ repeat (k_fkind sk) (length e)
+  /\ NoDup (map fst e).
+Proof. exact registry_gen. Qed.
+Print Assumptions C18_registry_any_config.
+
 Theorem C18_registry_today : cfg_ok cfg_today = true.
 Proof. exact cfg_today_ok. Qed.
 Print Assumptions C18_registry_today.
